@@ -21,7 +21,7 @@ class B:
         self.gen = gen
 
     def new(self, t, **kw):
-        n = dict(t=t, a=0, b=0, c=0, n=0, l=0, nx=0, nt=0, k=0)
+        n = dict(t=t, a=0, b=0, c=0, n=0, l=0, nx=0, nt=0, k=0, fk=0)
         n.update(kw)
         self.nodes.append(n)
         return len(self.nodes)
@@ -162,6 +162,27 @@ def random_program(pid, rnd, gen=False, maxd=3):
         ops = [dict(op=rnd.choice(['next', 'next', 'next', 'throw', 'return']), v=rnd.randint(1, 9), ctx=rnd.choice([0, 0, 1, 2, 3]))
                for _ in range(rnd.randint(1, 6))]
     return dict(id=pid, root=root, nodes=g.b.nodes, gen=1 if gen else 0, ops=ops)
+
+
+def with_fault(prog, pid, rnd):
+    """A copy of prog in which one abrupt statement (or one scripted iterator failure) is replaced by an uncatchable condition:
+    interrupt (kind 1), stack overflow (2) or foreign Go panic (3). None if the program has no candidate site."""
+    nodes = [dict(n) for n in prog['nodes']]
+    for n in nodes:
+        n.setdefault('fk', 0)
+    sites = [i for i, n in enumerate(nodes) if n['t'] in ('throw', 'return', 'break', 'continue')]
+    isites = [i for i, n in enumerate(nodes) if n['t'] in ('forof', 'consume', 'destr', 'ystar') and (n['nt'] or (n['b'] and n['c']))]
+    if not sites and not isites:
+        sites = [i for i, n in enumerate(nodes) if n['t'] == 'log']
+        if not sites:
+            return None
+    kind = rnd.randint(1, 3)
+    if isites and (not sites or rnd.random() < 0.4):
+        nodes[rnd.choice(isites)]['fk'] = kind
+    else:
+        n = nodes[rnd.choice(sites)]
+        n.update(t='fatal', n=kind, l=0)
+    return dict(prog, id=pid, nodes=nodes)
 
 
 # ---------------------------------------------------------------------------------------------------------------
@@ -318,7 +339,10 @@ def build_nested(combo, ab, gen):
 # printer
 
 PRE = '''function E(e){ return e instanceof TypeError ? 9999 : e; }
-function mk(id,n,hasRet,retThrows,nt,hasThrow){ var it={}; it[Symbol.iterator]=function(){ var c=0; var o={ next:function(v){ c++; log(30000+id*100+c); if(nt===c) throw 7; return c<=n ? {value:c,done:false} : {value:undefined,done:true}; } }; if(hasRet) o['return']=function(v){ log(40000+id*100); if(retThrows) throw 8; return {value:v,done:true}; }; if(hasThrow===1) o['throw']=function(e){ log(45000+id*100); throw e; }; if(hasThrow===2) o['throw']=function(e){ log(45000+id*100); return {value:55,done:true}; }; return o; }; return it; }
+var __fv = 0;
+function __fatal(n){ __fv = n; if (n % 3 === 1) __intr(n); else if (n % 3 === 2) (function r(){ r(); })(); else __gopanic(n); log(999998); }
+function __busy(id){ if (id & 1) { for (var z of [0]) { var [d0] = [z]; } for (var y in {a:1}) { try { continue; } finally { } } } }
+function mk(id,n,hasRet,retThrows,nt,hasThrow,fk){ var it={}; it[Symbol.iterator]=function(){ var c=0; var o={ next:function(v){ c++; log(30000+id*100+c); __busy(id); if(nt===c) { if (fk) __fatal(fk); throw 7; } return c<=n ? {value:c,done:false} : {value:undefined,done:true}; } }; if(hasRet) o['return']=function(v){ log(40000+id*100); __busy(id + 1); if(retThrows) { if (fk) __fatal(fk); throw 8; } return {value:v,done:true}; }; if(hasThrow===1) o['throw']=function(e){ log(45000+id*100); throw e; }; if(hasThrow===2) o['throw']=function(e){ log(45000+id*100); return {value:55,done:true}; }; return o; }; return it; }
 '''
 
 
@@ -328,6 +352,8 @@ def K(v, opts):
 
 
 def mkcall(n):
+    if n.get('fk'):
+        return 'mk(%d,%d,%d,%d,%d,%d,%d)' % (n['l'], n['n'], n['b'], n['c'], n['nt'], n['k'] if n['t'] == 'ystar' else 0, n['fk'])
     return 'mk(%d,%d,%d,%d,%d,%d)' % (n['l'], n['n'], n['b'], n['c'], n['nt'], n['k'] if n['t'] == 'ystar' else 0)
 
 
@@ -348,6 +374,8 @@ def print_stmts(nodes, i, ind=1, opts=None, single=False):
             out.append(p + 'log(7000 + (yield %d));' % n['n'])
         elif t == 'ystar':
             out.append(p + 'log(8000 + ((yield* %s) || 0));' % mkcall(n))
+        elif t == 'fatal':
+            out.append(p + '__fatal(%s);' % K(n['n'], opts))
         elif t == 'throw':
             out.append(p + 'throw %s;' % K(n['n'], opts))
             if opts.get('deadcode'):
